@@ -150,11 +150,24 @@ theorem readBytes_length (r : Reader) (n : Nat) : (r.readBytes n).1.length = n :
   repeat' split
   all_goals simp <;> omega
 
-/-- the optional-parameter loop: each value buffer is requested before its octets are known to
-    be there, but a request that is not backed ends the loop, so at most one 16-bit length
-    (65 535 octets) is ever requested beyond what is consumed. -/
+/-- a failed `ReadBytes` leaves nothing buffered -/
+theorem readBytes_fail_rest (r : Reader) (n : Nat) (he : r.err = none) (hf : (r.readBytes n).2.err ≠ none) :
+    (r.readBytes n).2.rest = [] := by
+  unfold Reader.readBytes at hf ⊢
+  simp only [he] at hf ⊢
+  split
+  · rename_i h0; simp [h0, he] at hf
+  · split
+    · rename_i h1; simpa using h1
+    · split
+      · rfl
+      · rename_i h0 h1 h2; simp [h0, h1, h2, he] at hf
+
+/-- the optional-parameter loop: the value buffer is sized by the declared length only as far as the
+    input backs it (one octet more on the failing path), so at most one octet is ever requested
+    beyond what is consumed. -/
 theorem readTlvLoop_step : ∀ (fuel : Nat) (r : Reader) (m : TlvMap), r.err = none →
-    (∀ x ∈ r.rest, x < 256) → RdStep r (readTlvLoop fuel r m).rd 65535 0
+    (∀ x ∈ r.rest, x < 256) → RdStep r (readTlvLoop fuel r m).rd 1 0
   | 0, r, m, _, _ => by simp only [readTlvLoop]; exact (RdStep.refl r).weaken (by omega) (by omega)
   | fuel+1, r, m, he, hb => by
     simp only [readTlvLoop]
@@ -162,54 +175,47 @@ theorem readTlvLoop_step : ∀ (fuel : Nat) (r : Reader) (m : TlvMap), r.err = n
     · exact (RdStep.refl r).weaken (by omega) (by omega)
     · have h1 := readBytes_step r 4
       have h1a := readBytes_alloc_eq r 4
-      have h1v := readBytes_val r 4
-      have h1l := readBytes_length r 4
-      generalize r.readBytes 4 = p1 at h1 h1a h1v h1l
+      generalize r.readBytes 4 = p1 at h1 h1a
       obtain ⟨hd, r1⟩ := p1
-      simp only at h1 h1a h1v h1l ⊢
-      have setNil : ∀ q : Reader, RdStep r q 65535 0 → RdStep r q.setErrNil 65535 0 := fun q hq =>
+      simp only at h1 h1a ⊢
+      have setNil : ∀ q : Reader, RdStep r q 1 0 → RdStep r q.setErrNil 1 0 := fun q hq =>
         ⟨hq.sub, hq.alloc, fun h => absurd he h, fun _ => by have := hq.len; simp [Reader.setErrNil]; omega, hq.len⟩
       split
       · exact setNil _ (h1.weaken (by omega) (by omega))
       · exact h1.weaken (by omega) (by omega)
       · rename_i he1
-        -- the declared length is a 16-bit number
-        have hlen : fromBe (hd.drop 2) < 65536 := by
-          have hb2 : ∀ x ∈ hd.drop 2, x < 256 := by
-            intro x hx
-            rcases h1v x (mem_drop hx) with h | h
-            · exact hb x h
-            · omega
-          have h2 := fromBe_lt _ hb2
-          have : (hd.drop 2).length = 2 := by simp [h1l]
-          rw [this] at h2
-          exact h2
-        generalize fromBe (hd.drop 2) = len at hlen ⊢
-        have h2 := readBytes_step { r1 with alloc := r1.alloc + len } len
-        have h2a := readBytes_alloc_eq { r1 with alloc := r1.alloc + len } len
-        generalize Reader.readBytes { r1 with alloc := r1.alloc + len } len = p2 at h2 h2a
+        generalize fromBe (hd.drop 2) = len
+        have h2 := readBytes_step { r1 with alloc := r1.alloc + min len (r1.remaining + 1) } len
+        have h2a := readBytes_alloc_eq { r1 with alloc := r1.alloc + min len (r1.remaining + 1) } len
+        have h2f := readBytes_fail_rest { r1 with alloc := r1.alloc + min len (r1.remaining + 1) } len he1
+        generalize Reader.readBytes { r1 with alloc := r1.alloc + min len (r1.remaining + 1) } len = p2 at h2 h2a h2f
         obtain ⟨v, r2⟩ := p2
-        simp only at h2 h2a ⊢
-        have h1c := h1.cons he1
-        -- the reader after a failed value read
-        have hfail : RdStep r r2 65535 0 := by
+        simp only at h2 h2a h2f ⊢
+        -- the reader after a failed value read: nothing is left, one octet more than the input was requested
+        have hfail : r2.err ≠ none → RdStep r r2 1 0 := by
+          intro hne
+          have hr2 := h2f hne
           refine ⟨fun x hx => h1.sub x (h2.sub x hx), ?_, fun h => absurd he h, fun _ => ?_, ?_⟩
-          · have := h2.alloc; have := h1.alloc; simp at *; omega
-          · have := h2.len; have := h1.len; simp at *; omega
-          · have := h2.len; have := h1.len; simp at *; omega
+          · have := h1.alloc; have := h1.len
+            simp only [Reader.remaining] at h2a
+            simp [hr2, h2a] at *; omega
+          · simp [hr2]
+          · simp [hr2]
         split
-        · exact setNil _ hfail
-        · exact hfail
+        · rename_i hq; exact setNil _ (hfail (by simp [hq]))
+        · rename_i hq2; exact hfail (by simp [hq2])
         · rename_i he2
           have h2c := h2.cons he2
           have ih := readTlvLoop_step fuel r2 (m.upsert (fromBe (hd.take 2)) v) he2
             (fun x hx => hb x (h1.sub x (h2.sub x hx)))
           refine ⟨fun x hx => h1.sub x (h2.sub x (ih.sub x hx)), ?_, fun h => absurd he h, fun _ => ?_, ?_⟩
-          · have := ih.alloc; have := h1.alloc; simp at *; omega
+          · have := ih.alloc; have := h1.alloc
+            simp only [Reader.remaining] at h2a
+            simp at *; omega
           · have := ih.len; have := h2.len; have := h1.len; simp at *; omega
           · have := ih.len; have := h2.len; have := h1.len; simp at *; omega
 
-theorem readTlvs_step (r : Reader) (hb : ∀ x ∈ r.rest, x < 256) : RdStep r (readTlvs r).rd 65535 0 := by
+theorem readTlvs_step (r : Reader) (hb : ∀ x ∈ r.rest, x < 256) : RdStep r (readTlvs r).rd 1 0 := by
   unfold readTlvs
   split
   · exact (RdStep.refl r).weaken (by omega) (by omega)
